@@ -552,6 +552,10 @@ func genC13(r *rng, n int) {
 	// forks of consecutive seeds would coincide.  Re-key from the first draw so that different seeds give unrelated streams.
 	r = &rng{s: r.next()*0xbf58476d1ce4e5b9 + 0x2545f4914f6cdd1d}
 	// 80 % of the budget: Thrift (1301/1302); 20 %: Protobuf (1311/1312, c13_proto.go)
+	if os.Getenv("C13_ONLY_HUGE") != "" { // timing aid: only the 2^21-byte payload cases
+		genC13Proto(r.fork(), 0)
+		return
+	}
 	nProto := n / 5
 	n -= nProto
 	rp := r.fork()
@@ -560,10 +564,11 @@ func genC13(r *rng, n int) {
 	thorough := n >= 20000
 	nStr := 60
 	if thorough {
-		nStr = 200
+		nStr = 150 // fixed counts: the widened classes do not scale with the budget
 	}
 	n -= genC13ThriftStrings(r.fork(), nStr, thorough)
 	made := 0
+	batches13 := 0
 	for made < n {
 		g := newGen13(r.fork())
 		idl := g.idl13()
@@ -576,7 +581,10 @@ func genC13(r *rng, n int) {
 		g.checkDesc(g.root, desc, map[*Ty]bool{})
 		dfs := g.descFields13()
 		// retention mode for a share of the descriptors: the whole batch through each leg by DoInto, results read afterwards
-		batchMode := g.r.chance(35)
+		batchMode := g.r.chance(35) && batches13 < 400 // at most a few hundred descriptors, whatever the budget
+		if batchMode {
+			batches13++
+		}
 		var batch [][]byte
 		bo1, bo2 := g.optPair()
 		for k := 0; k < 8 && made < n; k++ {
